@@ -14,6 +14,24 @@ CHECKS = {
   note="Trusts: the virtual loop faithfully runs asyncio futures/tasks (stock asyncio Task/Future on a BaseEventLoop subclass); prompt inputs are symmetric; OS-thread timing inside ThreadPoolExecutor is not explored (end-to-end verdicts are timing independent)."),
 }
 
+CHECKS.update({
+ "C01": dict(
+  category="exploration", design_ref="DESIGN.md 4/C01, 3.1", engine="smallscope",
+  technique="exhaustive small-scope enumeration (every shape x regular chunking x parameter tuple x optimize on/off per catalogued operation; every program up to N op nodes with shared sub-terms) against NumPy",
+  text="Every public array function (85 catalogue entries covering the array API, linalg, nan*, map_blocks/map_overlap/apply_gufunc/pad/rechunk, random, operators, indexing) is evaluated for every geometry and parameter tuple of the tier, operands chunked independently, optimize_graph on and off, plus every composition (DAG with sharing / several outputs) up to 2 (quick) or 3 (thorough) op nodes, and an executor slice on the real threads/single-threaded/processes executors; each result is compared with NumPy. Complete within the stated bounds, nothing sampled.",
+  note="Small-scope hypothesis: shapes <= 7 per dim (scans to 27), <= 4 dims; NumPy is the oracle (exact, allclose for floating statistics, invariants for qr/svd); dtype x geometry is not a full product."),
+ "C12": dict(
+  category="exploration", design_ref="DESIGN.md 4/C12", engine="smallscope",
+  technique="exhaustive small-scope enumeration with a per-task block-write monitor and storage metadata read-back",
+  text="For every computation of the C01 space: declared shape/dtype/chunks before compute equal the computed result and the backing Zarr arrays of every array in the executed plan, and every zarr write issued by every task has value.shape == region shape (no silent broadcast).",
+  note="Writes are observed by wrapping zarr.Array.__setitem__ on the harness side; structured intermediates are checked per field."),
+ "C17": dict(
+  category="exploration", design_ref="DESIGN.md 4/C17", engine="smallscope",
+  technique="exhaustive small-scope enumeration of the C01 space, classifying phase (build/plan/execute) and type of every exception",
+  text="For every case NumPy evaluates: an exception while building/planning must be ValueError/TypeError/NotImplementedError/IndexError (subclasses included), and no exception may occur once the executor has been entered on a fault-free store.",
+  note="EXEC phase = after DagExecutor.execute_dag was entered. map_overlap is enumerated only for depth <= smallest chunk (its contract beyond that is not defined by NumPy)."),
+})
+
 NOT_YET = {
 }
 
